@@ -992,8 +992,9 @@ impl<F, E, I: TargetDim> Dataset<F, E, I> {
         let feature_names = self.feature_names().to_vec();
         let target_names = self.target_names().to_vec();
 
-        // split records into two disjoint arrays
-        let mut array_buf = self.records.into_raw_vec();
+        // split records into two disjoint arrays; the elements are taken in logical order, the raw
+        // buffer of a sliced array also holds the elements outside of the slice
+        let mut array_buf = self.records.into_iter().collect::<Vec<_>>();
         let second_array_buf = array_buf.split_off(n1 * nfeatures);
 
         let first = Array2::from_shape_vec((n1, nfeatures), array_buf).unwrap();
@@ -1002,7 +1003,7 @@ impl<F, E, I: TargetDim> Dataset<F, E, I> {
         // split targets into two disjoint Vec
         let dim1 = self.targets.raw_dim().nsamples(n1);
         let dim2 = self.targets.raw_dim().nsamples(n2);
-        let mut array_buf = self.targets.into_raw_vec();
+        let mut array_buf = self.targets.into_iter().collect::<Vec<_>>();
         let second_array_buf = array_buf.split_off(dim1.size());
 
         let first_targets = Array::from_shape_vec(dim1, array_buf).unwrap();
